@@ -410,7 +410,26 @@ impl<Q: Describe + 'static> DynParam for FetchP<Q> {
     fn is_fetch(&self) -> bool { true }
     fn iter_log(&mut self) -> String {
         let f = self.live.as_mut().unwrap();
-        items_line(f.iter_mut().map(|i| Q::describe(i)))
+        let line = items_line(f.iter_mut().map(|i| Q::describe(i)));
+        // internal iteration (`fold`, which `for_each` / `count` / `sum` are built on) of an iterator that was advanced by
+        // `next()` first must yield exactly the remaining items (round-8 change C06_X_1: a `fold` override restarting the
+        // current archetype at row 0)
+        let mut plain = vec![];
+        let mut it = f.iter_mut();
+        while let Some(i) = it.next() { plain.push(Q::describe(i)); }
+        let mut seen = vec![];
+        let mut it = f.iter_mut();
+        let k = plain.len() / 2;
+        for _ in 0..k {
+            if let Some(i) = it.next() { seen.push(Q::describe(i)); }
+        }
+        let rest = it.fold(vec![], |mut acc, i| { acc.push(Q::describe(i)); acc });
+        seen.extend(rest);
+        let counted = { let mut it = f.iter_mut(); if !plain.is_empty() { it.next(); } it.count() + usize::from(!plain.is_empty()) };
+        if seen != plain || counted != plain.len() {
+            return format!("{line} !lenbad@fold");
+        }
+        line
     }
     fn bump(&mut self) {
         let f = self.live.as_mut().unwrap();
